@@ -1,6 +1,10 @@
 import FitModel.FileDef
+import FitModel.FileDefContent
 import Driver.Util
+import Driver.MsgCodec
+import Driver.Typed
 -- @family filedef Drv.hFileDef
+-- @family filedefc Drv.FileDefC.hFileDefC
 namespace Drv
 open Fit.FileDef
 
@@ -118,3 +122,48 @@ def hFileDef : Handler := fun r =>
     | _, _ => if r.mode == .model then "bad-op" else if r.mode == .kf then "-" else "n/a"
 
 end Drv
+
+/-! `filedefc <filetype byte> <opts> <message>…` → `n=<k> <message>…` — the file types on real protocol messages
+(`FitModel/FileDefContent.lean`; message syntax of MsgCodec, options of the typed family).
+* model: `toFITC (buildC …)`: structs stored by `Typed.ofMesg`, emitted by `Typed.toMesg`, suffix sorted;
+* `--spec`: what the property demands, computed WITHOUT structs: every message normalised by `normC` (= C13's
+  `typedNormal` for typed kinds), singletons keep their last occurrence, prefix, and everything after the prefix
+  stably sorted (`sortFrom := 3` whatever the file type does: the 8 types that sort less are KF-C14-2);
+* `--kf`: KF-C14-2 iff the file type does not sort from the end of the prefix and on this input the model's own
+  output differs from the demanded one. -/
+namespace Drv.FileDefC
+open Drv Fit.FileDef Fit.FileDef.Content Fit.Typed Fit.Msg
+
+def showOut (l : List Message) : String := " ".intercalate (s!"n={l.length}" :: l.map printMessage)
+
+def parseArgs (args : List String) : Option (FileType × Options × Drv.Typed.Fac × List Message) :=
+  match args with
+  | b :: o :: ms => do
+    let T ← b.toNat?.bind fileTypeOf
+    let (opts, fac) ← Drv.Typed.parseOpts o
+    let input ← parseAll parseMessage ms
+    some (T, opts, fac, input)
+  | _ => none
+
+def hFileDefC : Handler := fun r =>
+  match parseArgs r.args with
+  | none => if r.mode == .model then "bad-op" else if r.mode == .kf then "-" else "n/a"
+  | some (T, opts, fac, input) =>
+    let fc := Drv.Typed.facField fac
+    let model : Option (List Message) := match buildC T input with
+      | .panic => none
+      | .ok f => some (toFITC fc opts T f)
+    let demanded := G.toFIT (msgC fc opts) { T with sortFrom := 3 } (G.build (msgC fc opts) T input)
+    match r.mode with
+    | .model => match model with
+      | none => "panic"
+      | some out => showOut out
+    | .spec =>
+      -- a nil FieldBase (Add panics, or an unrelated message the comparator may trip over) is outside the quantifier
+      if !allBased input then "n/a" else showOut demanded
+    | .prop => "n/a"
+    | .kf =>
+      if T.sortFrom != 3 && allBased input && model != some demanded &&
+          model == some (G.toFIT (msgC fc opts) T (G.build (msgC fc opts) T input)) then "KF-C14-2" else "-"
+
+end Drv.FileDefC
